@@ -1,36 +1,387 @@
-"""Property -> armed analyses."""
+"""Property -> armed analyses (DESIGN.md section 4)."""
+import os
+
 from . import facts
 from .model import AnalysisError
 from .report import Ctx, finish
 from .world import World
 
 TRUSTED = [
-    "CPython semantics of the constructs analysed (closures, generators, contextmanager, dict/zip ordering)",
-    "the NumPy fact tables under /verif/sa/facts (linearity, local constancy, broadcasting, aliasing, operator table) and ufunc metadata of the installed numpy",
-    "helper inlining bound (depth 6 quick / 8 thorough); constructs outside the registration idioms are reported as undecided, never guessed",
+    "CPython semantics of the constructs analysed (closures, generators, contextmanager, dict/zip ordering, threading.local)",
+    "the NumPy fact tables under /verif/sa/facts (linearity, local constancy, broadcasting, aliasing, operator table) and the ufunc metadata / signatures of the installed numpy",
+    "helper inlining bound (depth 6 quick / 8 thorough); registration idioms outside those FE3 interprets are reported as undecided, never guessed",
+    "NumPy itself (indexing, broadcasting, ufunc.at) is trusted",
 ]
+
+NOT_DECIDED = {
+    "C01": "that the closed form of any rule equals the true derivative (numerical); tie/kink policy values",
+    "C02": "numerical equality of custom JVP formulas with J v",
+    "C03": "the counting invariant of toposort over unbounded DAG shapes; derivative values",
+    "C04": "adjointness of non-elementwise VJP/JVP pairs (reductions, contractions, linalg)",
+    "C05": "dtype preservation for reduced precision; shapes produced by non-broadcast rules",
+    "C06": "value equality of re-implemented wrappers with NumPy for all argument forms",
+    "C07": "numerical correctness of second derivatives, Hessian symmetry",
+    "C08": "the nested-derivative values",
+    "C09": "that each non-holomorphic rule equals conj(J_R^T conj g) numerically",
+    "C10": "NumPy-level aliasing not in the alias fact table",
+    "C11": "NumPy's indexing semantics themselves",
+    "C12": "numerical leaf values; behaviour on empty containers",
+    "C13": "commutativity, associativity, distributivity, positive-definiteness, basis orthonormality: numeric identities over runtime values",
+    "C14": "equality of the returned plain values with NumPy's",
+    "C15": "that every unguarded option of every ruled primitive is handled correctly",
+    "C16": "the contraction identities (tensordot axes in hessian/tensor products, ggnvp) and all values",
+    "C17": "routing of values at mixed trace levels (dynamic)",
+    "C19": "CPython generator/contextmanager semantics (trusted); warnings filters are user state",
+    "C20": "data races inside NumPy on shared arrays (outside 'unrelated data')",
+}
 
 
 def _analyses():
-    from .analyses import a1_tables, a2_binding, a3_shape, a4_kind, a5_factor, a5_linear, a7_axis, a8_taint, kernel_core as kc, kernel_trace as kt
+    from .analyses import a1_tables as a1
+    from .analyses import a2_binding as a2
+    from .analyses import a3_shape as a3
+    from .analyses import a4_kind as a4
+    from .analyses import a5_factor, a5_linear, a7_axis, a8_taint
+    from .analyses import kernel_api as ka
+    from .analyses import kernel_core as kc
+    from .analyses import kernel_trace as kt
 
+    vjp_axis = lambda c, w: a7_axis.hazards(c, w, modes=("vjp",))
+    jvp_axis = lambda c, w: a7_axis.hazards(c, w, modes=("jvp",))
+    thread = lambda c, w: kt.global_effects(c, w, thread=True)
     return {
-        "C01": ([a3_shape.vjp, a7_axis.hazards, a2_binding.catchall, a2_binding.variadic], "C01"),
-        "C12": ([a2_binding.layout, a2_binding.variadic], "C12"),
-        "C02": ([a1_tables.lin, a1_tables.arity], "C02: structural clauses of forward-mode exactness"),
-        "C04": ([a5_factor.agree, a5_linear.closures_linear, a1_tables.lin], "C04"),
-        "C14": ([a1_tables.nograd, a1_tables.sym, a1_tables.none_rules, a1_tables.methods], "C14"),
-        "C07": ([a8_taint.traceable, a1_tables.helpers], "C07"),
-        "C05": ([a3_shape.vjp, a3_shape.jvp], "C05"),
-        "C03": ([kc.backward_pass, kc.dispatch, kt.wrapper], "C03"),
-        "C10": ([kc.ownership, kc.purity, kc.inplace_sites, kc.closure_reuse, kc.backward_pass], "C10"),
-        "C17": ([kc.dispatch, kc.raise_discipline, kc.zero_paths], "C17"),
-        "C08": ([kt.trace_fn, kt.wrapper, kt.notrace_wrapper, kt.find_top, kt.new_trace], "C08"),
-        "C19": ([kt.global_effects, kt.trace_id_uses, kt.new_trace], "C19"),
-        "C20": ([lambda c, w: kt.global_effects(c, w, thread=True)], "C20"),
-        "C09": ([a4_kind.vspace, a4_kind.match, a4_kind.match_jvp, a4_kind.modulus], "C09"),
-        "C13": ([a1_tables.types], "C13"),
+        "C01": (
+            [a3.vjp, vjp_axis, a2.catchall, a2.variadic, a1.arity, ka.option_domains, a5_factor.agree, ka.arraybox_table],
+            "Reverse-mode exactness is numerical; decided here are the configuration-dependent plumbing clauses every exact rule needs: "
+            "broadcast discipline of VJPs (A3.vjp), negative-axis hazards (A7), keyword/positional binding behind catch-alls (A2.catchall), "
+            "variadic offsets (A2.variadic), arity (A1.arity), closed option domains (A6.enum), VJP/JVP factor agreement of elementwise rules (A5) "
+            "and the operator/method call forms (A14). Each is a necessary condition: breaking one makes some call configuration silently wrong.",
+        ),
+        "C02": (
+            [a1.lin, a3.jvp, ka.sibling_guards, jvp_axis, a2.catchall, a1.arity, kc.zero_paths],
+            "Forward-mode: 'same'/def_linear only on linear (function, argument) pairs (A1.lin: exactly when the primitive applied to the tangent IS the JVP), "
+            "output-shaped tangents of broadcasting JVPs (A3.jvp), guard agreement with the VJP twin (A6.sibling), axis hazards (A7) and binding (A2) of JVP makers, "
+            "(value, tangent) order and zero tangents of the right space (A13.zero/A2.tuple).",
+        ),
+        "C03": (
+            [kc.backward_pass, kc.dispatch, kt.wrapper, kc.raise_discipline],
+            "Chain rule over arbitrary graphs: path property of one backward_pass iteration (node.vjp exactly once, one add_outgrads per parent edge keyed by that parent, "
+            "accumulating into the current entry), alignment of parents/argnums/rules in the wrapper and in all dispatch branches (A13.align), node constructor slots (A2.slot).",
+        ),
+        "C04": (
+            [a5_factor.agree, a5_linear.closures_linear, a1.lin],
+            "Adjointness: equal normal forms of the VJP and JVP factors of every elementwise primitive with both rules (a diagonal operator is self-adjoint, so equality of the "
+            "factors IS adjointness for all inputs); linearity in g of every rule closure (two-point domain over linear_in facts); 'same' entries only on linear pairs.",
+        ),
+        "C05": (
+            [a3.vjp, a4.match, kc.zero_paths, a1.types, a2.layout],
+            "A gradient lives in its argument's space: shape support under broadcasting (A3.vjp), real/complex kind for every kind assignment of the arguments (A4.match, exhaustive 2^n), "
+            "zeros of the argument's / output's space on independent paths (A13.zero), one Box and one VSpace per differentiable type (A1.types), container layout (A2.layout).",
+        ),
+        "C06": (
+            [kt.trace_fn, kt.wrapper, kt.notrace_wrapper, ka.arraybox_table, ka.operators, ka.wrapper_signatures, kc.inplace_sites],
+            "Value transparency: trace() returns the unboxed value; the wrapper calls the raw function unchanged on plain inputs and unboxes exactly one level; ArrayBox's "
+            "operator/method/property table follows the Python data model (A14); operators return primal/aux untouched (A15); re-implemented wrappers keep NumPy's optional "
+            "parameter names, positions and defaults (A6.wrapsig); no in-place write to a parameter (A9.inplace).",
+        ),
+        "C07": (
+            [a8_taint.traceable, a1.helpers, kc.closure_reuse],
+            "Closure under differentiation: no raw numpy call on a possibly traced operand inside a non-primitive rule body (A8), every helper primitive used at backward time "
+            "has its own VJP and VSpace arithmetic has both rules (A1.helpers), backward closures are re-usable (A10).",
+        ),
+        "C08": (
+            [kt.trace_fn, kt.wrapper, kt.find_top, kt.new_trace],
+            "No perturbation confusion: the three mechanisms of tracer.py on all paths - inner traces get strictly larger ids (A12.bal), only top-trace boxes are unboxed and the "
+            "list resets on strictly greater / appends on equal (A12.top), dependence by id equality, re-entry of the wrapper for lower levels, answer boxed with the arguments' trace (A13.unbox).",
+        ),
+        "C09": (
+            [a4.vspace, a4.match, a4.match_jvp, a4.modulus, a5_factor.agree, ka.operators],
+            "Complex convention: ComplexArrayVSpace overrides (conjugating covector, real inner product, size 2n, two basis vectors per entry), kind plumbing of VJPs/JVPs for every "
+            "real/complex assignment (A4), conjugation placement in modulus-family rules (A4.modulus), VJP/JVP factor agreement (holomorphic ufuncs: no conjugate in either table), holomorphic_grad = grad(real o f).",
+        ),
+        "C10": (
+            [kc.ownership, kc.purity, kc.inplace_sites, kc.closure_reuse, kc.backward_pass],
+            "Memory ownership: typestate proof of add_outgrads over all of its paths (A9.proto), purity of VSpace._add/_scalar_mul/_covector/_inner_prod (A9.pure), every in-place "
+            "site writes memory allocated by the same function (A9.inplace, decided by def-use, not whitelisted), closures re-usable (A10), the user's cotangent enters as (g, False).",
+        ),
+        "C11": (
+            [kc.ownership, _a9_scatter, _a2_index_pairing, a1.types, a1.lin],
+            "Indexing gradients: the sparse branches of add_outgrads (every order of k sparse and m dense contributions reduces to its transitions), ufunc.at scatter so repeated "
+            "indices accumulate (A9.scatter), __getitem__/untake pairing on the same index and the argument's space (A2.repo), both sparse object types registered (A1.types), 'same' JVPs (A1.lin).",
+        ),
+        "C12": (
+            [a2.layout, a2.variadic, ka.container_boxes, _container_spaces, _flatten_order],
+            "Containers: offset arithmetic of sequence_extend / make_sequence (A2.layout, A2.variadic), content accessors of SequenceBox/DictBox go through the primitive (A14.containers), "
+            "every registered container space resolves its abstract members, flatten destructures make_vjp as (unflatten, flat) and visits dict keys in sorted order.",
+        ),
+        "C13": (
+            [a1.types, _vspace_members, a4.vspace, kc.purity, kc.ownership],
+            "Only the non-numeric clauses: registry agreement (A1.types), every registered space resolves zeros/ones/standard_basis/randn/_inner_prod to a concrete body and __eq__ "
+            "compares type and structure fields, ComplexArrayVSpace overrides (A4.vspace), purity and mut_add(None, x) freshness (A9.pure).",
+        ),
+        "C14": (
+            [kc.zero_paths, a1.nograd, a1.sym, a1.none_rules, a1.methods, ka.arraybox_table, kt.wrapper, kt.trace_fn],
+            "Exact zeros: independent outputs give zeros of the right space and never None (A13.zero); everything declared non-differentiable is locally constant (A1.nograd/none/methods, "
+            "facts about NumPy) for both node types (A1.sym); comparisons map to untraced functions, __bool__/shape/len read the raw value (A14); the notrace branch returns plain values.",
+        ),
+        "C15": (
+            [kc.raise_discipline, ka.guard_dominance, ka.option_domains, ka.sibling_guards, ka.raw_calls_in_wrappers, ka.arraybox_table, ka.operators, a1.nograd, a1.none_rules, _namespace_classes],
+            "Loud failure: handlers on the rule-lookup/boxing path end in raise and lookups index (A6.raise), guards cannot be bypassed (A6.dom), closed option domains covered (A6.enum), "
+            "guard agreement VJP<->JVP (A6.sibling), raw results re-traced (A6.rawcall), no __setitem__/in-place dunders and output checks of grad/value_and_grad/elementwise_grad (A6.ops), "
+            "the only declarative ways to drop dependence are locally constant (A1.nograd/none), namespace classification of every exported callable.",
+        ),
+        "C16": (
+            [ka.operators, kc.zero_paths],
+            "Operator wiring (A15, A2.tuple, A6.ops): unary_to_nary select/substitute agreement for int/tuple/list argnums and kwargs pass-through, value_and_grad/grad_and_aux return "
+            "primal/aux untouched, jacobian = output shape + input shape over the output basis, deriv element [1], holomorphic_grad, hessian, make_hvp, checkpoint, grad_named.",
+        ),
+        "C17": (
+            [kc.dispatch, kc.raise_discipline, kc.zero_paths, kt.wrapper, ka.operators],
+            "Extension contract: the three defvjp branches are specialisations of one mapping (A13.align), missing rules raise (A6.raise), None -> zeros of the right argument (A13.zero), "
+            "registration slots and wrapper hand-over (A2.slot), argnums= honoured, 'same'/def_linear substitute at argnum, checkpoint wiring (A15).",
+        ),
+        "C19": (
+            [kt.global_effects, kt.trace_id_uses, kt.new_trace, kc.closure_reuse],
+            "History independence: the differentiation path writes exactly one piece of process-global state (A11), which is observed only through order/equality comparisons of ids of "
+            "live boxes and updated only by balanced +-1 (A12.cmp/bal): results are invariant under any shift of ids, so a leaked increment after an exception cannot change them; closures re-usable (A10).",
+        ),
+        "C20": (
+            [thread, kt.new_trace, kt.trace_id_uses],
+            "Thread confinement (A11.thread): every global written on the differentiation path lives in a threading.local; with per-thread ids the C19 argument applies thread by thread.",
+        ),
     }
+
+
+# ----- small property-specific rules that reuse the engine -------------------------------------------------
+def _a9_scatter(ctx, world):
+    import ast
+
+    from .analyses.common import loc_of
+    from .model import norm_text
+
+    ctx.describe("A9.scatter", "inside a SparseObject's mut_add closure accumulation at an index uses ufunc.at (buffered A[idx] += x loses repeated indices); the index list normalisation precedes the scatter")
+    m, fn = world.repo.find_def("autograd.numpy.numpy_vjps", "untake")
+    inner = [s for s in fn.body if isinstance(s, ast.FunctionDef)]
+    ok_at = False
+    bad = None
+    for f in inner:
+        for x in ast.walk(f):
+            if isinstance(x, ast.Call) and isinstance(x.func, ast.Attribute) and x.func.attr == "at":
+                base = x.func.value
+                r = world.repo.resolve_expr(m, base)
+                if r is not None and r.qual == "numpy.add" and len(x.args) == 3 and isinstance(x.args[0], ast.Name) and x.args[0].id == f.args.args[0].arg:
+                    ps = [a.arg for a in fn.args.args]
+                    ok_at = isinstance(x.args[1], ast.Name) and x.args[1].id == ps[1] and isinstance(x.args[2], ast.Name) and x.args[2].id == ps[0]
+            if isinstance(x, ast.AugAssign) and isinstance(x.target, ast.Subscript):
+                bad = x
+            if isinstance(x, ast.Assign) and any(isinstance(t, ast.Subscript) for t in x.targets):
+                bad = x
+    if ok_at and bad is None:
+        ctx.ob("A9.scatter", "untake: onp.add.at(A, idx, x)", True, loc_of(m, fn))
+    else:
+        ctx.fail("A9.scatter", "untake:scatter", "autograd.numpy.numpy_vjps.untake:scatter", loc_of(m, bad or fn), f"untake's accumulator does not scatter with numpy.add.at(A, idx, x){' but with `' + norm_text(bad)[:50] + '`' if bad else ''}", "an integer-array index with repeated entries, x[[0, 0, 1]]: contributions of repeated positions are lost")
+    # returns SparseObject(vs, mut_add)
+    rets = [s for s in fn.body if isinstance(s, ast.Return)]
+    ps = [a.arg for a in fn.args.args]
+    ok = len(rets) == 1 and isinstance(rets[0].value, ast.Call) and isinstance(rets[0].value.func, ast.Name) and rets[0].value.func.id == "SparseObject" and len(rets[0].value.args) == 2 and isinstance(rets[0].value.args[0], ast.Name) and rets[0].value.args[0].id == ps[2] and inner and isinstance(rets[0].value.args[1], ast.Name) and rets[0].value.args[1].id == inner[0].name
+    if ok:
+        ctx.ob("A9.scatter", "untake returns SparseObject(vs, mut_add)", True, loc_of(m, fn))
+    else:
+        ctx.fail("A9.scatter", "untake:result", "autograd.numpy.numpy_vjps.untake:result", loc_of(m, fn), "untake does not return SparseObject(vs, mut_add) with the space it was given", "indexing gradients")
+    # list-index normalisation precedes the closure definition
+    first_def = min([i for i, s in enumerate(fn.body) if isinstance(s, ast.FunctionDef)] or [0])
+    norm_before = any(isinstance(s, ast.If) and i < first_def for i, s in enumerate(fn.body))
+    ctx.ob("A9.scatter", "untake: list index normalised before the scatter closure is built", bool(norm_before), loc_of(m, fn), nontrivial=False)
+    # container_untake uses vs._subval on A and _mut_add on the selected component
+    m2, fn2 = world.repo.find_def("autograd.builtins", "container_untake")
+    src = ast.unparse(fn2)
+    ok = "_subval" in src and "_mut_add" in src
+    ctx.ob("A9.scatter", "container_untake accumulates with _mut_add into the selected component and rebuilds with _subval", ok, loc_of(m2, fn2))
+    if not ok:
+        ctx.fail("A9.scatter", "container_untake", "autograd.builtins.container_untake", loc_of(m2, fn2), "container_untake no longer accumulates with _mut_add / rebuilds with _subval", "a tuple element used twice")
+
+
+def _a2_index_pairing(ctx, world):
+    from .analyses.common import construct_of
+    from .kfun import is_call_to, strip_seq
+
+    ctx.describe("A2.repo", "__getitem__/untake and container_take/container_untake pairing: each rule passes the SAME index to its partner and the space of the indexed ARGUMENT")
+    pairs = {
+        "autograd.numpy.numpy_boxes.ArrayBox.__getitem__": ("autograd.numpy.numpy_vjps.untake", True),
+        "autograd.numpy.numpy_vjps.untake": (None, False),
+        "autograd.builtins.container_take": ("autograd.builtins.container_untake", True),
+        "autograd.builtins.container_untake": ("autograd.builtins.container_take", False),
+    }
+    n = 0
+    for e in world.table.entries:
+        if e.mode != "vjp" or e.prim_id not in pairs or e.spec != "maker":
+            continue
+        ir = world.ir(e)
+        partner, with_vs = pairs[e.prim_id]
+        n += 1
+        res = strip_seq(ir.result) if ir and ir.ok else None
+        ok = False
+        if res is not None:
+            if partner is None:
+                ok = res.op == "sub" and res.obj.op == "sym" and res.obj.get("role") == "g" and res.idx.op == "arg" and res.idx.index == 1
+            elif res.op == "call" and is_call_to(res, partner):
+                a = res.args
+                ok = len(a) >= 2 and a[0].op == "sym" and a[0].get("role") == "g" and a[1].op == "arg" and a[1].index == 1
+                if with_vs:
+                    ok = ok and len(a) == 3 and is_call_to(a[2], "autograd.core.vspace") and a[2].args[0].op == "arg" and a[2].args[0].index == 0
+        inst = construct_of(e)
+        if ok:
+            ctx.ob("A2.repo", inst, True, e.loc, sample=str(res)[:100])
+        else:
+            ctx.fail("A2.repo", inst, inst, e.loc, f"the rule does not hand the cotangent, the same index and the indexed argument's space to its partner (found {str(res)[:100]})", "x[idx] with a non-trivial index on an argument whose shape differs from the cotangent's")
+    ctx.floor("A2.repo index pairings", n, 4)
+
+
+def _container_spaces(ctx, world):
+    import ast
+
+    from .analyses.common import loc_of
+    from .regs import class_lookup
+
+    ctx.describe("A1.spaces", "every registered container VSpace resolves _values, _kv_pairs, _map, _subval (and seq_type for sequence spaces) to a concrete member through its MRO")
+    n = 0
+    for cls, txt, tref, maker, m, site in world.table.vspace_reg:
+        cref = world.repo.resolve_expr(m, ast.parse(cls.rsplit(".", 1)[-1], mode="eval").body) if False else None
+        mod = world.repo.mods.get(cls.rsplit(".", 1)[0])
+        if mod is None:
+            continue
+        cref = world.repo.resolve(mod, cls.rsplit(".", 1)[-1])
+        if cref is None or cref.kind != "repo" or cref.okind != "class":
+            continue
+        from .regs import class_mro
+
+        mro = [k.qual for k in class_mro(world.repo, cref)]
+        if "autograd.builtins.ContainerVSpace" not in mro:
+            continue
+        need = ["_values", "_kv_pairs", "_map", "_subval"]
+        if "autograd.builtins.SequenceVSpace" in mro:
+            need.append("seq_type")
+        for name in need:
+            n += 1
+            k, node = class_lookup(world.repo, cref, name)
+            inst = f"{cls}.{name}"
+            if node is not None:
+                ctx.ob("A1.spaces", inst, True, loc_of(m, site))
+            else:
+                ctx.fail("A1.spaces", inst, inst, loc_of(m, site), f"registered container space {cls} has no member {name}", f"grad w.r.t. a value of type {txt}")
+    ctx.floor("A1.spaces members", n, 20)
+
+
+def _flatten_order(ctx, world):
+    import ast
+
+    from .analyses.common import loc_of
+    from .model import norm_text
+
+    ctx.describe("A2.flatten", "flatten destructures make_vjp(_flatten)(value) as (unflatten, flat_value); _flatten enumerates dict keys only through sorted(...)")
+    m, fn = world.repo.find_def("autograd.misc.flatten", "flatten")
+    ok = False
+    for st in fn.body:
+        if isinstance(st, ast.Assign) and isinstance(st.targets[0], ast.Tuple) and len(st.targets[0].elts) == 2 and isinstance(st.value, ast.Call) and isinstance(st.value.func, ast.Call):
+            a, b = [e.id for e in st.targets[0].elts]
+            inner = st.value.func
+            okc = isinstance(inner.func, ast.Name) and inner.func.id == "make_vjp" and len(inner.args) == 1 and isinstance(inner.args[0], ast.Name) and inner.args[0].id == "_flatten"
+            ret = [s for s in fn.body if isinstance(s, ast.Return)]
+            okr = ret and isinstance(ret[0].value, ast.Tuple) and [e.id for e in ret[0].value.elts] == [b, a]
+            ok = bool(okc and okr)
+    if ok:
+        ctx.ob("A2.flatten", "flatten: (unflatten, flat) = make_vjp(_flatten)(value); returns (flat, unflatten)", True, loc_of(m, fn))
+    else:
+        ctx.fail("A2.flatten", "flatten:tuple", "autograd.misc.flatten.flatten", loc_of(m, fn), "flatten does not take element 0 of make_vjp(_flatten)(value) as unflatten and element 1 as the flat vector", "flatten(value)")
+    m, fn = world.repo.find_def("autograd.misc.flatten", "_flatten")
+    bad = None
+    good = 0
+    for x in ast.walk(fn):
+        if isinstance(x, (ast.GeneratorExp, ast.ListComp, ast.For)):
+            its = [g.iter for g in x.generators] if not isinstance(x, ast.For) else [x.iter]
+            for it in its:
+                if isinstance(it, ast.Call) and isinstance(it.func, ast.Name) and it.func.id == "sorted":
+                    good += 1
+                elif isinstance(it, ast.Call) and isinstance(it.func, ast.Attribute) and it.func.attr in ("keys", "values", "items"):
+                    bad = it
+    if good >= 1 and bad is None:
+        ctx.ob("A2.flatten", "_flatten: dict keys enumerated through sorted()", True, loc_of(m, fn))
+    else:
+        ctx.fail("A2.flatten", "_flatten:order", "autograd.misc.flatten._flatten:order", loc_of(m, bad or fn), "_flatten enumerates dict entries without sorted(): insertion order leaks into the flat vector", "two dicts with equal keys inserted in different orders")
+
+
+def _vspace_members(ctx, world):
+    import ast
+
+    from .analyses.common import loc_of
+    from .regs import class_lookup, class_mro
+
+    ctx.describe("A1.members", "every registered VSpace class resolves zeros/ones/standard_basis/randn/_inner_prod to a body that is not the abstract `assert False`; VSpace.__eq__ compares type and __dict__; each space's __init__ stores only structure fields")
+    seen = set()
+    n = 0
+    for cls, txt, tref, maker, m, site in world.table.vspace_reg:
+        names = [cls]
+        if maker is not None:
+            names = [world.repo.resolve_expr(m, c.func).qual for c in ast.walk(maker) if isinstance(c, ast.Call) and world.repo.resolve_expr(m, c.func) is not None and world.repo.resolve_expr(m, c.func).kind == "repo" and world.repo.resolve_expr(m, c.func).okind == "class"]
+        for q in names:
+            if q in seen or q == "autograd.core.VSpace":
+                continue
+            seen.add(q)
+            mod = world.repo.mods.get(q.rsplit(".", 1)[0])
+            cref = world.repo.resolve(mod, q.rsplit(".", 1)[-1]) if mod else None
+            if cref is None or cref.kind != "repo":
+                continue
+            for name in ("zeros", "ones", "standard_basis", "randn", "_inner_prod"):
+                n += 1
+                k, node = class_lookup(world.repo, cref, name)
+                abstract = node is None or (isinstance(node, ast.FunctionDef) and any(isinstance(s, ast.Assert) and isinstance(s.test, ast.Constant) and s.test.value is False for s in node.body))
+                inst = f"{q}.{name}"
+                if not abstract:
+                    ctx.ob("A1.members", inst, True, loc_of(cref.mod, node))
+                else:
+                    ctx.fail("A1.members", inst, inst, loc_of(cref.mod, cref.node), f"{q} inherits the abstract `assert False` {name}", f"vspace(value).{name}() for a value of type {txt}")
+    ctx.floor("A1.members resolved", n, 30)
+    m, fn = world.repo.find_def("autograd.core", "VSpace.__eq__")
+    src = ast.unparse(fn)
+    ok = "type(self) == type(other)" in src.replace("  ", " ") and "__dict__" in src
+    if ok:
+        ctx.ob("A1.members", "VSpace.__eq__ compares type and __dict__", True, loc_of(m, fn))
+    else:
+        ctx.fail("A1.members", "VSpace.__eq__", "autograd.core.VSpace.__eq__", loc_of(m, fn), "VSpace.__eq__ no longer compares both the type and the structure fields", "spaces of a real and a complex array of the same shape, or a list and a tuple")
+
+
+def _namespace_classes(ctx, world):
+    from .analyses.common import locally_constant
+    from .model import Wrapped
+
+    ctx.describe("A6.namespace", "every callable exported by autograd.numpy / .linalg / .fft / .random falls in exactly one class: ruled (VJP entry), declared constant (notrace, locally constant by facts), unruled primitive (node construction raises NotImplementedError), or re-implemented composite; no class consumes a boxed positional argument silently")
+    vj = world.table.by_prim("vjp")
+    nt = world.table.notrace_quals("autograd.core.VJPNode")
+    wrapper_mod = world.repo.mod("autograd.numpy.numpy_wrapper")
+    counts = {"ruled": 0, "declared-constant": 0, "unruled-primitive": 0, "composite": 0, "wrapper-notrace": 0}
+    total = 0
+    for ns in ("numpy", "numpy.linalg", "numpy.fft", "numpy.random"):
+        for name in world.env.exported_callables(ns):
+            total += 1
+            q = f"{ns}.{name}"
+            if ns == "numpy" and name in wrapper_mod.top and wrapper_mod.top[name][-1][0] in ("def", "assign"):
+                counts["composite"] += 1
+                continue
+            how = world.repo.classify_wrapped(ns, name)
+            if how == "notrace":
+                counts["wrapper-notrace"] += 1
+            elif q in nt:
+                ok, why = locally_constant(world, Wrapped(ns, name, "primitive"))
+                counts["declared-constant"] += 1
+                if not ok:
+                    ctx.fail("A6.namespace", q, f"namespace:{q}", wrapper_mod.relpath, f"{q} is exported as untraced but {why}", "any float input")
+            elif q in vj:
+                counts["ruled"] += 1
+            else:
+                counts["unruled-primitive"] += 1
+    ctx.extra["namespace_classes"] = counts
+    ctx.ob("A6.namespace", f"{total} exported callables classified: {counts}", True, wrapper_mod.relpath, sample=str(counts))
+    ctx.floor("A6.namespace exported callables", total, 400)
 
 
 def run_property(prop, tier, root, replay_key=None, selftest=True):
@@ -42,6 +393,8 @@ def run_property(prop, tier, root, replay_key=None, selftest=True):
     ctx = Ctx(prop, tier, world.root)
     for fn in fns:
         fn(ctx, world)
+    if tier == "thorough":
+        _thorough_extras(ctx, world, prop)
     und = world.table.undecided
     for m, site, reason in und:
         if not m.name.startswith("autograd.scipy"):
@@ -50,4 +403,25 @@ def run_property(prop, tier, root, replay_key=None, selftest=True):
     ctx.extra["numpy_version"] = world.env.version
     ctx.extra["rule_table_entries"] = len(world.table.entries)
     ctx.extra["registration_sites"] = world.table.sites
-    return finish(ctx, explanation, TRUSTED, world.files(), replay_key=replay_key)
+    ctx.extra["not_decided"] = NOT_DECIDED.get(prop, "")
+    ctx.floor("rule table entries (autograd.numpy*, core, builtins)", sum(1 for e in world.table.entries if world.in_numpy_scope(e)), 330)
+    if tier == "thorough" and selftest and os.path.abspath(root) == "/repo" and replay_key is None:
+        from .selftest import run_selftest
+
+        st = run_selftest(prop)
+        ctx.extra["selftest"] = st["summary"]
+        if st["failed"]:
+            raise AnalysisError(f"checker self-test failed for {prop}: {st['failed'][:3]}")
+    return finish(ctx, explanation + " NOT decided: " + NOT_DECIDED.get(prop, ""), TRUSTED, world.files(), replay_key=replay_key)
+
+
+def _thorough_extras(ctx, world, prop):
+    """thorough tier: both NumpyVersion branches are in the rule table already (World(tier='thorough')); widen
+    advisory scope to autograd.scipy / autograd.misc (NOTES only)."""
+    from .analyses import a1_tables as a1
+
+    n = 0
+    for e in world.table.entries:
+        if not world.in_numpy_scope(e):
+            n += 1
+    ctx.extra["advisory_scope_entries"] = n
